@@ -71,6 +71,15 @@ def run(ctx):
                dict(k=2, prelude=[dict(solve_time=2 * dt, inspect=True, screening=True), dict(solve_time=2 * dt, inspect=True, on_copy=True)])):
         jobs.append(("call", dict(module="harness.twin", func="solve_frames", args=dict(phx, **rc))))
         fam.append(phx["label"])
+    # resume in a new session: coherence length that is not a power of two (so every length conversion rounds), the seed
+    # read back from its file, the continuation run on the device stored in that file
+    ph3 = dict(label="bar/xi=0.3/fixed", dev="bar", xi=0.3, mel=0.5, current=2.0, field=0.3, adaptive=False, dt=dt, solve_time=10 * dt - dt / 2)
+    physics.append(ph3)
+    for rc in (dict(k=1), dict(k=2, split=[4 * dt - dt / 2, 6 * dt - dt / 2], seed_form="reloaded_device"),
+               dict(k=1, split=[7 * dt - dt / 2, 3 * dt - dt / 2], seed_form="reloaded_device"),
+               dict(k=2, split=[5 * dt - dt / 2, 5 * dt - dt / 2], seed_form="memory")):
+        jobs.append(("call", dict(module="harness.twin", func="solve_frames", args=dict(ph3, **rc))))
+        fam.append(ph3["label"])
     # resume: split the fixed-step run at several points
     base = physics[0]
     splits = [3, 8, N // 2, N - 1, 5] if ctx.quick else list(range(1, N))
